@@ -32,6 +32,10 @@ func call(f func() (interface{}, error)) (r callResult) {
 				r = callResult{Panic: fmt.Sprintf("step cap exceeded after %d steps", ce.Steps)}
 				return
 			}
+			if dl, ok := p.(simrt.Deadlock); ok {
+				r = callResult{Panic: "deadlock: blocked on a mutex nobody can release any more, at " + dl.At}
+				return
+			}
 			r = callResult{Panic: panicString(p)}
 		}
 	}()
